@@ -92,7 +92,25 @@ def nt_recv(mode, case):
     return h(case[:200000]) if k >= 2 else None
 
 
-NONTRIVIAL = {"C20": nt_log, "C01": nt_codec, "C02": nt_codec, "C13": nt_recv}
+def nt_ufs(mode, case):
+    t = case.split()
+    if t[0] == "IO":
+        # non-trivial: at least one write-type and one read-type operation; distinct by content
+        has_w = any(x in t for x in ("W", "X", "Q"))
+        has_r = any(x in t for x in ("R", "N", "S"))
+        return h(case[:100000]) if (has_w and has_r) else None
+    if t[0] == "DIR":
+        try:
+            k = int(t[t.index("CH") + 1])
+        except Exception:
+            return None
+        return h(case[:20000]) if k >= 2 or "TOOSMALL" in case else None   # a listing of several replies, or the error case
+    if t[0] == "DIRX":
+        return h(case[:20000])
+    return None
+
+
+NONTRIVIAL = {"C14": nt_ufs, "C15": nt_ufs, "C20": nt_log, "C01": nt_codec, "C02": nt_codec, "C13": nt_recv}
 
 
 def nontrivial_key(prop, mode, case):
@@ -127,6 +145,19 @@ PROPS = {
                 "Non-trivial/distinct: distinct (type byte, dialect, outcome class, length).",
         "level_text": "Coq theorems (Props/C02.v) over the line-by-line model of Unpack/gstat/UnpackDir in which a short slice read is an explicit Panic: for EVERY byte string and either dialect the decoder never panics; on success the consumed length equals the size prefix (7 <= n <= input length), the type is a defined message type, every decoded field is within its wire type; the result depends only on the declared prefix; input-dependent allocations are bounded by 8x the input length; re-encoding the decoded fields decodes to the same fields. The model is tied to the Go code by exact differential comparison (outcome class, tag, size, every field) on ~36k hostile frames per quick run.",
         "level_note": CODEC_NOTE + " Allocation is modelled as the arguments of the three input-dependent make() sites (runtime allocator overhead trusted; the harness bounds the measured TotalAlloc).",
+    },
+    "C14": {
+        "modes": [{"name": "ufsio", "harness": "ufsio", "modelcheck": "ufs"}],
+        "rule": "real Clnt <-> real server framework <-> Ufs on a scratch tree: file lengths {0, 1, iounit-1, iounit, iounit+1, 2*iounit+1, 3*iounit-1, random} with random contents, msize {128, 256, 1000, 4096, 8192, 65536}, both dialects, 6-15 operations per file among Clnt.Read, File.Readn, File.Read, Clnt.Write, File.Written, File.Write with offsets at 0 / EOF-1 / EOF / past EOF / random and counts 0 / 1 / iounit / several iounits, a second file open at the same time. Oracle: after every operation the harness compares with the underlying file through the os package (returned bytes = file[off:off+n], file after write = POSIX pwrite); correspondence: the Coq model frun on the same operations returns the same data/counts/EOF and final file. Non-trivial: a case with at least one read-type and one write-type operation; distinct by content.",
+        "level_text": "Coq theorems (Props/C14.v) over the model of Ufs.Read/Ufs.Write on a regular file, the srv.read/write count guard, Clnt.Open's iounit, Clnt.Read/Write and the File helpers: for every file content, msize, iounit, offset and count the bytes read equal POSIX pread of the file (empty at or beyond EOF), File.Read advances its offset by what it returned, Readn returns exactly the requested bytes up to EOF and Written leaves exactly pwrite(file, off, data) for ANY chunking (two different iounits give the same file). Tied to the code by differential runs against real files.",
+        "level_note": "Trusted: Coq kernel, translator (IOHDRSZ), extraction + OCaml driver, Go harness. The underlying file is modelled as a byte list with POSIX pread/pwrite (validated against the os package in every harness run, not proved); offsets >= 2^63 are errors as in Go's ReadAt. Print Assumptions: closed under the global context.",
+        "assumptions": ["os.File.ReadAt/WriteAt behave as POSIX pread/pwrite on regular files"],
+    },
+    "C15": {
+        "modes": [{"name": "ufsdir", "harness": "ufsdir", "modelcheck": "ufs"}],
+        "rule": "directories of 0, 1, 2, 5, 50 (thorough: up to 5000) entries with name lengths 1..255 on a scratch tree, msize {512, 4096, 65536}, both dialects; listings following the offset rule for every count from the largest entry size to three entries (exhaustive for small directories), random counts otherwise, too-small counts (max-1, 1, 0, first-1), restart at offset 0 mid-listing, arbitrary offsets (past the end, inside an entry, on boundaries) with counts 0/max/iounit, and the client's Readdir(0). Oracle (from the decoded record sizes and os.ReadDir only): every reply consists of whole entries, <= count bytes, offsets chain, complete set exactly once, error iff the next entry does not fit; correspondence: the Coq dir_window/listing model fed with the observed entry sizes predicts the same chunks and outcome. Non-trivial: a listing of >= 2 replies or a too-small case, and every off-rule offset case; distinct by content.",
+        "level_text": "Coq theorems (Props/C15.v) over the arithmetic model (Go int as Z) of the directory branch of Ufs.Read: for every listing (any number of entries, any positive sizes), every offset and count: a reply consists of whole consecutive entries of at most count bytes and is non-empty while entries remain; following the offset rule with counts >= the largest entry yields every entry exactly once in order and then an empty reply; a count too small for the next entry is an error; Readdir(0) gets everything; off-rule offsets are refused or empty and never an ill-formed slice. Tied to the code by listings of real directories.",
+        "level_note": "Trusted: Coq kernel, extraction + OCaml driver, Go harness. The snapshot (entry sizes and order) comes from the OS and is an input of the model; UnpackDir correctness is C01. Print Assumptions: closed under the global context.",
     },
     "C13": {
         "modes": [{"name": "recv", "harness": "recv", "modelcheck": "recv"}],
